@@ -189,7 +189,7 @@ def case_graph(p):
     stream, sent = _wire(seq)
     loop = vloop.VirtualLoop().install()
     try:
-        g = explore.seg_graph(lambda: make_proto(len(sent) + 2), feed, canon_proto, observe, stream)
+        g = explore.seg_graph(lambda: make_proto(len(sent) + 2), feed, canon_proto, observe, stream, expect=sent, max_nodes=40 * (len(stream) + 1))
     finally:
         loop.shutdown()
     out = []
@@ -200,8 +200,9 @@ def case_graph(p):
         if obs != sent:
             out.append(("delivered-messages-differ-from-sent", {"segments": list(path), "got": obs, "sent": sent, "stream": stream}))
             break
-    if not g["terminal"] and not g["errors"]:
+    if not g["terminal"] and not g["errors"] and not g["capped"] and not g["stopped_early"]:
         out.append(("stream-end-unreachable", {"stream": stream}))
+    p["_capped"] = g["capped"] and not out
     for obs, path in g["observations"].items():
         if obs != sent[: len(obs)]:
             out.append(("delivery-not-prefix-of-sent", {"segments": list(path), "got": obs, "stream": stream}))
@@ -253,6 +254,8 @@ def _work(item, seed, tier):
     name, p = item
     v = CASES[name](p)
     nodes, trans, n = p.pop("_stats", (0, 0, 0))
+    if p.pop("_capped", False):
+        acc.capped.append("segmentation graph node cap hit without a violation (state depends heavily on cuts)")
     acc.states += nodes
     acc.transitions += trans
     acc.extra["stream_bytes"] += n
